@@ -51,6 +51,10 @@ def get_context(
     default : Optional[Any]
         A default value to return if the context variable is not defined. None by default.
     """
+    # The default may itself be an expression (e.g. a task call), which has to be evaluated when
+    # it is the value that is returned.
     return scheduler.evaluate(parent_job.get_context(), parent_job=parent_job).then(
-        lambda context: get_context_value(context, var_path, default)
+        lambda context: scheduler.evaluate(
+            get_context_value(context, var_path, default), parent_job=parent_job
+        )
     )
